@@ -34,6 +34,7 @@ import Kanzi.Drv.ImageGen2
 import Kanzi.Drv.EXE
 import Kanzi.Drv.BWT
 import Kanzi.Drv.ROLZ
+import Kanzi.Drv.Text
 
 open Kanzi
 
@@ -217,5 +218,6 @@ def main (args : List String) : IO UInt32 := do
   | ["exe"] => loop stdin stdout Kanzi.Drv.exe; return 0
   | ["bwt"] => Kanzi.Drv.bwtLoop stdin stdout; return 0
   | ["rolz"] => loop stdin stdout Kanzi.Drv.rolz; return 0
+  | ["text"] => loop stdin stdout Kanzi.Drv.text; return 0
   | ["image"] => loop stdin stdout Kanzi.Drv.image; return 0
   | _ => IO.eprintln "usage: kmodel <norm>"; return 2
